@@ -178,3 +178,33 @@ impl BadDiv {
         xs[self.period + 1]
     }
 }
+
+/// C13 controls: an accumulator narrowed to f32, a fixed-point integer accumulator, a quantising call
+#[derive(Debug, Clone)]
+pub struct BadNarrow {
+    period: usize,
+    sum: f64,
+    cents: i64,
+}
+impl BadNarrow {
+    pub fn new(period: usize) -> Result<Self> {
+        match period {
+            0 => Err(TaError::InvalidParameter),
+            _ => Ok(Self { period, sum: 0.0, cents: 0 }),
+        }
+    }
+}
+impl Next<f64> for BadNarrow {
+    type Output = f64;
+    fn next(&mut self, input: f64) -> f64 {
+        self.sum = ((self.sum + input) as f32) as f64;      // narrowed on every step
+        self.cents += (input * 100.0) as i64;               // fixed-point accumulator
+        (self.sum * 100.0).round() / 100.0 + self.cents as f64
+    }
+}
+impl Reset for BadNarrow {
+    fn reset(&mut self) {
+        self.sum = 0.0;
+        self.cents = 0;
+    }
+}
